@@ -4,7 +4,9 @@ import CattrsModel.Lemmas.ModesAgree
 
 Property theorems only.  `convStructure w cfg T o` is `converter.structure(o, T)` of the model: the
 `detailed` flag of `cfg` selects the detailed template `stD` (error trees) or the fast template
-`stF` (first error wins); everything else is shared.
+`stF` (first error wins); everything else is shared.  NamedTuple positions (`Ty.nt`) run the heterogeneous-tuple
+hook over the field types and then `cl(*res)`: the fast template checks the arity first and raises a bare error,
+the detailed one structures the zipped items and appends an un-indexed leaf to the iterable group.
 -/
 namespace CattrsModel
 
